@@ -4,12 +4,12 @@
     of kernels.convolve_templates is the direct sum  sum_k dpad[(t + k - ref) mod N] * tnorm[k]  (circular padding, roll by
     -ref, reversal + roll by 1, normalisation after the flip, slice [:nbins]); MatchedFilter._compute returns the maximum
     response and its first location; invariance given estimator equivariance; the Cauchy-Schwarz core of boxcar recovery.
-    NOT proved: [fft_laws], float32 error, np.mean / sqrt of normalize_template (external, [norm_ops]), equivariance of
+    [fft_laws] holds for the exact DFT (C13_response_formula_with_exact_dft).  NOT proved: that pocketfft computes the DFT, float32 error, np.mean / sqrt of normalize_template (external, [norm_ops]), equivariance of
     the location / scale estimators (C15), and the link from the response sums to overlap counts in boxcar recovery.
     Only property theorems here; each is closed by [exact] of a lemma of Proofs/C13_mf.v. *)
-From Coq Require Import ZArith List Bool QArith.
+From Coq Require Import ZArith List Bool QArith Ring_theory.
 Require Import SPP.Base.Rt SPP.Model.C12_np SPP.Model.C12_conv SPP.Model.C13_np SPP.Gen.Kernels SPP.Gen.MatchedFilter
-        SPP.Model.C13_mf SPP.Proofs.C12_conv SPP.Proofs.C13_mf.
+        SPP.Model.C13_mf SPP.Proofs.C12_conv SPP.Proofs.C13_mf SPP.Proofs.C12_dft SPP.Proofs.C12_dft_fft.
 Import ListNotations.
 Open Scope Z_scope.
 
@@ -58,6 +58,27 @@ Theorem C13_response_formula_circular_pad : forall F Nm, fft_laws F -> forall da
       (zrange (len bank)).
 Proof. exact response_formula_cpad. Qed.
 Print Assumptions C13_response_formula_circular_pad.
+
+(** the response formula with the EXACT discrete Fourier transform in place of the FFT library (Props/C12_dft.v: the DFT over any
+    commutative ring with principal roots of unity, e.g. the complex numbers, satisfies [fft_laws]) *)
+Theorem C13_response_formula_with_exact_dft : forall (R : Type) (r0 r1 : R) (radd rmul rsub : R -> R -> R) (ropp : R -> R),
+  ring_theory r0 r1 radd rmul rsub ropp eq ->
+  forall (inj : Z -> R) (toZ : R -> Z),
+  inj 0 = r0 -> (forall a b, inj (a + b) = radd (inj a) (inj b)) -> (forall a b, inj (a * b) = rmul (inj a) (inj b)) -> (forall z, toZ (inj z) = z) ->
+  forall w ninv : nat -> R,
+  (forall n, (0 < n)%nat -> rpow R r1 rmul (w n) n = r1) ->
+  (forall n, (0 < n)%nat -> rmul (rnat R r0 r1 radd n) (ninv n) = r1) ->
+  (forall n d, (0 < d < n)%nat -> rsum R r0 radd n (fun k => rpow R r1 rmul (w n) (k * d)) = r0) ->
+  forall gs : Z -> Z, (forall n, 1 <= n -> n <= gs n) ->
+  let F := dft_fft R r0 r1 radd rmul inj toZ w ninv gs in
+  forall Nm data bank refs,
+  1 <= len data -> (forall k, In k bank -> len k <= len data) -> src_is F Nm (cpad F) (ilen_given F) ->
+  convolve_templates_run F Nm data bank refs =
+  map (fun itemp => to_list (len data) (response Nm data (nth (Z.to_nat itemp) bank []) (nth (Z.to_nat itemp) refs 0) (fft_good_size F (len data))))
+      (zrange (len bank)).
+Proof. intros R r0 r1 radd rmul rsub ropp Rth inj toZ I0 Ia Im It w ninv Hw Hn Ho gs Hgs F Nm data bank refs.
+  apply response_formula_cpad. apply (dft_laws R r0 r1 radd rmul rsub ropp Rth inj toZ I0 Ia Im It w ninv Hw Hn Ho gs Hgs). Qed.
+Print Assumptions C13_response_formula_with_exact_dft.
 
 (** inverse without a length: when the padded length N is ODD and equals the data length (3, 5, 9, 15, 25, 27, 45, ...)
     every row has nbins - 1 values, so the row store fails (for odd N > nbins the N - 1 values returned are not constrained
